@@ -61,7 +61,15 @@ def symbolic_value(eng: Engine, st: State, name: str, ty: sym.Ty, exact_cls=True
     return v
 
 
-def _wf_refs(eng, st, v, ty):
+def _wf_refs(eng, st, v, ty, depth=0):
+    if isinstance(v, sym.SRec) and depth < 4:
+        for f, x in v.fields.items():
+            _wf_refs(eng, st, x, v.ci.fields.get(f, ANY), depth + 1)
+        return
+    if isinstance(v, STuple) and depth < 4:
+        for x in v.items:
+            _wf_refs(eng, st, x, getattr(x, "ty", ANY), depth + 1)
+        return
     if isinstance(v, SRef):
         st.assume(z3.And(v.t >= 0, v.t < st.heap.next_ref))
         if ty.kind == "class":
@@ -255,8 +263,11 @@ class Verifier:
                 rep.vacuous = True
                 rep.undecided.append("precondition unsatisfiable (vacuous contract)")
                 return rep
+            self._is_gen = any(isinstance(n, (ast.Yield, ast.YieldFrom)) for n in _walk_own(fn))
             old = st.copy()
             self._old = old
+            if self._is_gen:
+                st.frames[0].vars["__yield__"] = models.new_list(eng, st, [], sym.TList(ANY))  # allocated by the call: outside the frame
             # when-conditions of raises clauses are pre-state predicates
             outs = eng.ex_block(fn.body, st, fi)
             rep.paths = len(outs)
@@ -288,6 +299,8 @@ class Verifier:
         lets = c.lets
         if o.kind in ("next", "return"):
             result = o.value if o.value is not None else NONEV
+            if getattr(self, "_is_gen", False):
+                result = st.frames[fi].vars["__yield__"]  # a generator's result is the list of what it yields
             for cl in c.ensures:
                 g = spec_eval(eng, st, fi, cl.expr, lets, old=old, result=result)
                 self._ob(rep, c, "ensures", cl, st, g, pno)
@@ -332,7 +345,9 @@ class Verifier:
         for f in sorted(st.written_fields - old.written_fields):
             if f in allowed_fields or f.startswith("__"):
                 continue
-            g = st.field(f) == old.field(f)
+            r0 = sym.fresh_int("fr")
+            # objects allocated during the call are not part of the frame: only pre-existing objects must keep the field
+            g = z3.ForAll([r0], z3.Implies(z3.And(r0 >= 0, r0 < old.heap.next_ref), z3.Select(st.field(f), r0) == z3.Select(old.field(f), r0)))
             fake = Clause(None, tag=f"frame-{f}", top=False, src=f"field {f} not in modifies")
             self._ob(rep, c, "frame", fake, st, g, pno)
         if st.written_containers[len(old.written_containers):]:
